@@ -6,7 +6,7 @@ p, x = sys.argv[1], sys.argv[2]
 pfx = sys.argv[3] if len(sys.argv) > 3 else "brk"
 P = p.upper()
 src = "/tmp/%s_%s_out" % (pfx, p)
-label = x if pfx == "brk" else {"A": "C", "B": "D"}[x] if pfx == "brk2" else {"A": "E", "B": "F"}[x] if pfx == "brk3" else {"A": "G", "B": "H"}[x] if pfx == "brk4" else {"A": "I", "B": "J"}[x]
+label = x if pfx == "brk" else {"A": "C", "B": "D"}[x] if pfx == "brk2" else {"A": "E", "B": "F"}[x] if pfx == "brk3" else {"A": "G", "B": "H"}[x] if pfx == "brk4" else {"A": "I", "B": "J"}[x] if pfx == "brk5" else {"A": "K", "B": "L"}[x]
 dst = "/verif/seeded/%s-%s" % (P, label)
 os.makedirs(dst, exist_ok=True)
 shutil.copy(os.path.join(src, x + ".diff"), os.path.join(dst, "patch.diff"))
@@ -36,12 +36,12 @@ meta = {
     "needs_to_manifest": needs or "see description.md",
     "confirmation": conf or "(pending)",
     "what_i_ran": [
-        "tools/confirm_seed.sh /tmp/PFX_%s /tmp/PFX_%s_out %s   # apply, cmake build with repo flags, ctest (ProcessTest in a private PID namespace), demo fails; revert, rebuild, demo passes" % (p, p, x),
+        "tools/confirm_seed.sh /tmp/WTPFX_%s /tmp/PFX_%s_out %s   # apply, cmake build with repo flags, ctest (ProcessTest in a private PID namespace), demo fails; revert, rebuild, demo passes" % (p, p, x),
         "tools/seed_eval.py %s /tmp/PFX_%s_out/%s.diff   # quick check against /repo/src + patch" % (P, p, x),
     ],
     "check_results": ev,
     "detected_by_quick_check": bool(ev) and (" exit=1 " in ev[-1]),
 }
-meta["what_i_ran"] = [w.replace("PFX", pfx) for w in meta["what_i_ran"]]
+meta["what_i_ran"] = [w.replace("WTPFX", "brk5" if pfx == "brk6" else pfx).replace("PFX", pfx) for w in meta["what_i_ran"]]
 json.dump(meta, open(os.path.join(dst, "meta.json"), "w"), indent=1)
 print(dst, meta["confirmation"][:60], "| detected:", meta["detected_by_quick_check"])
